@@ -130,8 +130,8 @@ func VerifC19WeakCollide() {
 	vLabel("")
 	verifC19Run(base, target, bs, limit, false)
 	if baseLen >= 2*bs {
-		// witness: the target's last window equals a block that is not the
-		// first candidate of its weak hash
+		// witness (after all assertions, so the fork costs nothing): the base
+		// has two different full blocks sharing a weak hash
 		e := verifNewEngine()
 		if verifC19Collision(e.BytesSignature(base, uint64(bs))) {
 			vCover("any-collision")
